@@ -91,6 +91,7 @@ class Ctx(object):
         self.tier = tier
         self._mods = {}
         self._cfgs = {}
+        self._flat = {}
         self._cache = {}
         self.consulted = set()
         self.normalise = os.environ.get('SA_NO_NORMALISE') != '1'
@@ -139,6 +140,15 @@ class Ctx(object):
                 raise
             except Exception as e:
                 raise AnalysisError('normalisation of %s failed: %s: %s' % (rel, type(e).__name__, e))
+        if self.normalise:
+            # helpers a refactoring added that the normal form could not expand at their call sites: a closed evaluation that
+            # meets a call of one of them (and has no oracle for it) does not know its effect and must not guess
+            from . import absint
+            base = normalize.baseline_funcs().get(name)
+            if base is not None:
+                for q, f, _ism in normalize.module_functions(tree):
+                    if q not in base and not (f.name.startswith('__') and f.name.endswith('__')):
+                        absint.OPAQUE_NAMES.add(f.name)
         m = Module(name, path, rel, src, tree)
         self._mods[name] = m
         self.consulted.add(rel)
@@ -225,6 +235,32 @@ class Ctx(object):
                         c._qual = n.name + '.' + c.name
                         c._mod = m
                         yield c._qual, c
+
+    def flatten(self, modname, qual, callees):
+        """a copy of `qual` in which the calls of the named methods / functions of the same module (`callees`, qualified
+        names; methods of base classes included) are expanded in place, repeatedly - the interprocedural view a rule
+        needs when the callee's effect on the object's fields matters (an oracle only returns a value).  The original
+        trees are untouched; the copy keeps the source positions of the expanded statements."""
+        import copy
+        from . import normalize as NZ
+        key = (modname, qual, tuple(callees))
+        if key in self._flat:
+            return self._flat[key]
+        fn = copy.deepcopy(self.func(modname, qual))
+        new = []
+        for q in callees:
+            f = self.func(modname, q, required=False)
+            if f is None:
+                continue
+            new.append((q, copy.deepcopy(f), '.' in q and not any(isinstance(d, ast.Name) and d.id == 'staticmethod' for d in f.decorator_list)))
+        stats = {}
+        inl = NZ.Inliner(self.mod(modname).tree, new, stats)
+        inl.run(fn)
+        NZ._Canon(stats).visit(fn)
+        NZ.forward_temps(fn, stats)
+        ast.fix_missing_locations(fn)
+        self._flat[key] = (fn, stats, sorted(inl.expanded))
+        return self._flat[key]
 
     def cfg(self, fn):
         from . import cfg as cfgmod
